@@ -33,3 +33,86 @@ Example C08_example_selection :
   find_positions PATH_FUEL doc None [PRoot; PFilter (EArithB BAdd (EPaths [PCurrent]) (EValue (PVNum (NUInt 1))))] = Err EOther.
 Proof. vm_compute. repeat split; reflexivity. Qed.
 Print Assumptions C08_example_selection.
+
+(* ---- the selector as the code runs it: byte positions into the root buffer (SelWalk.v), never decoding ---- *)
+From JB Require Import Codec DispatchProofs SelWalk SelWalkProofs.
+
+(* a position denotes a sub-value when its offsets delimit exactly that value's payload in the buffer (SelWalkProofs.den);
+   one step of the selector on a denoting position yields, in order and with repetitions, positions denoting exactly
+   what the step selects on the value — or fails / panics exactly when the tree step does *)
+Theorem C08_bytes_step : forall bs p pos x, den bs pos x ->
+  res_rel (Forall2 (den bs)) (step_pos_w bs p pos) (select_step p x).
+Proof. exact step_pos_den. Qed.
+Print Assumptions C08_bytes_step.
+
+(* the frontier after a whole path, filters included, for every fuel: positions denoting the tree evaluator's items *)
+Theorem C08_bytes_positions_and_filters : forall root, good root -> forall fuel,
+  (forall cur curv ps, cur_rel root cur curv ->
+     res_rel (Forall2 (den (enc root))) (find_positions_w fuel (enc root) cur ps) (find_positions fuel root curv ps)) /\
+  (forall pos x e, den (enc root) pos x -> res_rel eq (filter_expr_w fuel (enc root) pos e) (filter_expr fuel root x e)).
+Proof. exact find_filter_rel. Qed.
+Print Assumptions C08_bytes_positions_and_filters.
+
+(* Selector::select / exists / predicate_match on the encoding of any well-formed value = the tree evaluator on the
+   decoded document (normalise v = what parse_jsonb (enc v) yields), for EVERY path and mode: values, errors and
+   panics alike, so no restriction to the parser's image is needed *)
+Theorem C08_bytes_select : forall v ps m buf, wfb v = true -> select_w (enc v) ps m buf = select_t (normalise v) ps m buf.
+Proof. exact select_w_enc. Qed.
+Print Assumptions C08_bytes_select.
+Theorem C08_bytes_exists : forall v ps, wfb v = true -> sel_exists_w (enc v) ps = exists_t (normalise v) ps.
+Proof. exact sel_exists_w_enc. Qed.
+Print Assumptions C08_bytes_exists.
+Theorem C08_bytes_predicate_match : forall v ps, wfb v = true -> sel_predicate_match_w (enc v) ps = predicate_match_t (normalise v) ps.
+Proof. exact sel_predicate_match_w_enc. Qed.
+Print Assumptions C08_bytes_predicate_match.
+(* the walker model and the decode-then-evaluate model of Dispatch.v agree on encodings *)
+Theorem C08_bytes_select_is_view : forall v ps m buf, wfb v = true -> select_w (enc v) ps m buf = Dispatch.select_m (enc v) ps m buf.
+Proof. exact select_w_m. Qed.
+Print Assumptions C08_bytes_select_is_view.
+
+(* the public functions get_by_path / get_by_path_first / get_by_path_array / path_exists / path_match *)
+Theorem C08_bytes_get_by_path : forall md v ps buf, wfb v = true -> top_ok v ->
+  get_by_path_gen_w md (enc v) ps buf = select_t (normalise v) ps md buf.
+Proof. exact get_by_path_gen_w_enc. Qed.
+Print Assumptions C08_bytes_get_by_path.
+Theorem C08_bytes_path_exists : forall v ps, wfb v = true -> top_ok v -> path_exists_w (enc v) ps = exists_t (normalise v) ps.
+Proof. exact path_exists_w_enc. Qed.
+Print Assumptions C08_bytes_path_exists.
+Theorem C08_bytes_path_match : forall v ps, wfb v = true -> top_ok v -> path_match_w (enc v) ps = predicate_match_t (normalise v) ps.
+Proof. exact path_match_w_enc. Qed.
+Print Assumptions C08_bytes_path_match.
+
+(* on paths of the parser's image the byte-level selector never panics on an encoding *)
+Theorem C08_bytes_never_panics : forall v ps m buf k, wfb v = true ->
+  match ps with
+  | PCurrent :: r => False
+  | PRoot :: r => forallb (step_ok k) r = true
+  | [PPredicate e] => expr_ok k e = true
+  | r => forallb (step_ok k) r = true
+  end -> select_w (enc v) ps m buf <> Panic.
+Proof. exact select_w_never_panics. Qed.
+Print Assumptions C08_bytes_never_panics.
+
+(* a nested document, a path with a wildcard, an index range with `last` and a filter comparing @.k with $.b:
+   $.*[1 to last]?(@.k >= $.b)  on  {"a":[{"k":1},{"k":5},{"k":9},"x"],"b":5}  selects {"k":5} and {"k":9};
+   the walker computes it on the bytes, item by item and as an array *)
+Example C08_bytes_example :
+  let k n := VObj [([107], VNum (NUInt n))] in
+  let doc := VObj [([97], VArr [k 1; k 5; k 9; VStr [120]]); ([98], VNum (NUInt 5))] in
+  let p := [PRoot; PDotWild; PIndices [ASlice (IIndex 1) (ILast 0)];
+            PFilter (EBin OGe (EPaths [PCurrent; PDotField [107]]) (EPaths [PRoot; PDotField [98]]))] in
+  select_w (enc doc) p MAll [] = Ok (enc (k 5) ++ enc (k 9), [15; 30]) /\
+  select_w (enc doc) p MArray [7] = Ok (7 :: enc (VArr [k 5; k 9]), [43]) /\
+  select_w (enc doc) p MFirst [] = Ok (enc (k 5), [15]) /\
+  sel_exists_w (enc doc) p = Ok true /\
+  find_positions_w PATH_FUEL (enc doc) None [PRoot; PDotWild; PIndices [ASlice (IIndex 1) (ILast 0)]]
+    = Ok [PosC 57 15; PosC 72 15; PosS STRING_TAG 87 1] /\
+  select_w (firstn 60 (enc doc)) p MAll [] = Err EOther.
+Proof. vm_compute. repeat split; reflexivity. Qed.
+Print Assumptions C08_bytes_example.
+
+(* the public functions of the walker model and of the view-level model agree on encodings *)
+Theorem C08_bytes_public_is_view : forall md v ps buf, wfb v = true -> top_ok v ->
+  get_by_path_gen_w md (enc v) ps buf = Dispatch.get_by_path_gen md (enc v) ps buf.
+Proof. exact get_by_path_gen_w_m. Qed.
+Print Assumptions C08_bytes_public_is_view.
